@@ -41,6 +41,14 @@ func runC02(c *Ctx) {
 	if rw == nil || rc == nil || wc == nil {
 		return
 	}
+	// the registration counters count every goroutine that holds or waits for the key: a counter narrower than 32
+	// bits wraps with a reachable number of goroutines (65536 readers), the entry is then freed while locks are held
+	// and the next caller locks a fresh entry beside them
+	for _, f := range []*types.Var{rc, wc} {
+		b, isB := f.Type().Underlying().(*types.Basic)
+		wide := isB && (b.Kind() == types.Int || b.Kind() == types.Int32 || b.Kind() == types.Int64 || b.Kind() == types.Uint || b.Kind() == types.Uint32 || b.Kind() == types.Uint64 || b.Kind() == types.Uintptr)
+		c.check(wide, "C02.reclaim", "wrapLocker."+f.Name()+" width", f.Pos(), "counter type "+f.Type().String(), "the registration counter has type "+f.Type().String()+": it wraps once that many goroutines register on one key, the wrapped counter reaches 0 while locks are still held, the entry is freed and a later writer excludes nobody")
+	}
 	for _, typ := range []string{"KeyLocker", "TKeyLocker"} {
 		x := &klCtx{c: c, typ: typ, rw: rw, readCnt: rc, writeCnt: wc}
 		x.lockMap = c.mustField(rel, typ, "lockMap")
